@@ -1,5 +1,252 @@
 import Driver.Common
-open Driver
+import GIV.Model.TsLife
+open GIV GIV.TsLife Driver
 
-/-- stub: replaced by the group's model driver. -/
-def main : IO Unit := run (fun _ => "bad-op")
+/-! line protocol of the tslife model driver (`gim_tslife`)
+
+  grace <timeout_ns>                                   → g=<grace> i=<interruptAt> k=<killAt>   (offsets in ns)
+  env <host> <rootHex> <nameHex> <setup>               → the initial environment list, in order
+  refcount <n> <retain 0|1> <schedule>                 → replay of a finisher schedule
+  waitorstop <killDelay> <deadline|none> <mayExit> <onInt> <ctxDone> <delivered> <killed> <res>
+                                                       → member | notmember …  (coarse outcome ∈ executions of the class?)
+  execout <neg> <err> <ctxErr>                         → ok | fatal:<hex msg>
+  script <flags> <root> <name> <host> <setup> <sdefers> <keys> <files> <ops>  → solo prediction of one script
+
+  strings are hex (`-` = empty); lists are comma separated (`-` = empty list). -/
+
+def hexS (s : String) : String := toHex s.toUTF8.toList
+
+def unhexS (h : String) : Option String := do
+  let b ← fromHex h
+  String.fromUTF8? (ByteArray.mk b.toArray)
+
+def splitList (s : String) (sep : String) : List String :=
+  if s == "-" || s == "" then [] else s.splitOn sep
+
+def showEnv (e : EnvList) : String :=
+  if e.isEmpty then "-" else ",".intercalate (e.map fun kv => hexS kv.1 ++ ":" ++ hexS kv.2)
+
+def parseEnv (s : String) : Option EnvList :=
+  (splitList s ",").mapM fun item =>
+    match item.splitOn ":" with
+    | [k, v] => do
+      let k ← unhexS k
+      let v ← unhexS v
+      pure (k, v)
+    | _ => none
+
+def showPath (p : Path) : String :=
+  if p.isEmpty then "." else "/".intercalate (p.map hexS)
+
+def parsePath (s : String) : Option (List String) :=
+  if s == "." then some [] else (s.splitOn "/").mapM unhexS
+
+def parseNat (s : String) : Option Nat := s.toNat?
+
+def parseInt (s : String) : Option Int :=
+  if s.startsWith "-" then (s.drop 1).toNat?.map fun n => -(n : Int) else s.toNat?.map fun n => (n : Int)
+
+def parseBool (s : String) : Option Bool :=
+  if s == "1" then some true else if s == "0" then some false else none
+
+def sortStrings (l : List String) : List String := l.mergeSort (fun a b => decide (a ≤ b))
+
+def showNode : Node → String
+  | .dir => "d"
+  | .file d => "f" ++ toHex d
+
+def showTree (t : List (Path × Node)) : String :=
+  if t.isEmpty then "-" else ",".intercalate (sortStrings (t.map fun e => showPath e.1 ++ "=" ++ showNode e.2))
+
+/-- effective environment (last entry wins), sorted by name. -/
+def showEffEnv (e : EnvList) : String :=
+  let names := e.foldl (fun acc kv => if acc.contains kv.1 then acc else acc ++ [kv.1]) ([] : List String)
+  let items := names.map fun k => hexS k ++ ":" ++ hexS (getenv e k)
+  if items.isEmpty then "-" else ",".intercalate (sortStrings items)
+
+def parseKind (s : String) : Option BgKind :=
+  if s == "s" then some .sig else if s == "o" then some .ok else if s == "b" then some .bad else none
+
+def parseOp (s : String) : Option Op :=
+  match s.splitOn ":" with
+  | ["P"] => some .probe
+  | ["C", p] => (parsePath p).map .cd
+  | ["K"] => some .cdWork
+  | ["E", k, v] => do
+    let k ← unhexS k
+    let v ← unhexS v
+    pure (.env k v)
+  | ["M", p] => (parsePath p).map .mkdir
+  | ["Y", a, b] => do
+    let a ← parsePath a
+    let b ← parsePath b
+    pure (.cp a b)
+  | ["R", p] => (parsePath p).map .rm
+  | ["H", p] => (parsePath p).map .chmod
+  | ["D", n] => (parseNat n).map .regDefer
+  | ["B", n, k, g] => do
+    let n ← unhexS n
+    let k ← parseKind k
+    let g ← parseBool g
+    pure (.bg n k g)
+  | ["F"] => some .fg
+  | ["W"] => some .waitAll
+  | ["w", n] => (unhexS n).map .waitOne
+  | ["X"] => some .failLine
+  | ["S"] => some .skip
+  | ["T"] => some .stop
+  | _ => none
+
+def parseEntry (s : String) : Option Entry :=
+  match s.splitOn ":" with
+  | [p, d] => do
+    let p ← parsePath p
+    let d ← fromHex d
+    pure (p, d)
+  | _ => none
+
+def showVerdict : Verdict → String
+  | .pass => "pass" | .fail => "fail" | .skip => "skip" | .hang => "hang" | .escape => "escape"
+
+def showIds (l : List Nat) : String :=
+  if l.isEmpty then "-" else ".".intercalate (l.map toString)
+
+/-- walk the trace: for every deferred call, the `sig` helpers that are certainly still running
+(started, not interrupted, not waited for) and those that were interrupted but not yet waited for
+(they exit by themselves at some moment: the harness accepts either). -/
+def deferredView (tr : List Ev) : List String :=
+  let step := fun (acc : (List Nat × List Nat) × List String) (e : Ev) =>
+    match e with
+    | .started id .sig => ((acc.1.1 ++ [id], acc.1.2), acc.2)
+    | .interrupted id =>
+      if acc.1.1.contains id then ((acc.1.1.filter (· != id), acc.1.2 ++ [id]), acc.2) else acc
+    | .waited id => ((acc.1.1.filter (· != id), acc.1.2.filter (· != id)), acc.2)
+    | .deferred d => (acc.1, acc.2 ++ [toString d ++ "@" ++ showIds acc.1.1 ++ "/" ++ showIds acc.1.2])
+    | _ => acc
+  (tr.foldl step (([], []), [])).2
+
+def showOutcome (o : Outcome) : String :=
+  let probes := o.trace.filterMap fun e => match e with
+    | .probe cwd vals tree => some (showPath cwd ++ "|" ++ (if vals.isEmpty then "-" else ",".intercalate (vals.map hexS)) ++ "|" ++ showTree tree)
+    | _ => none
+  let reports := o.trace.filterMap fun e => match e with
+    | .report cwd env => some (showPath cwd ++ "|" ++ showEffEnv env)
+    | _ => none
+  let dv := deferredView o.trace
+  let started := o.trace.filterMap fun e => match e with | .started id _ => some id | _ => none
+  let waited := o.trace.foldl (fun acc e => match e with | .waited id => if acc.contains id then acc else acc ++ [id] | _ => acc) ([] : List Nat)
+  let flushLast := o.trace.getLast? == some .logFlush
+  let undrained := started.filter fun id => !waited.contains id
+  "V=" ++ showVerdict o.verdict ++
+  " D=" ++ (if dv.isEmpty then "-" else ",".intercalate dv) ++
+  " G=" ++ showIds o.registered ++
+  " N=" ++ toString started.length ++
+  " U=" ++ showIds undrained ++
+  " L=" ++ (if flushLast then "1" else "0") ++
+  " P=" ++ (if probes.isEmpty then "-" else ";".intercalate probes) ++
+  " R=" ++ (if reports.isEmpty then "-" else ";".intercalate reports) ++
+  " F=" ++ showTree o.finalFs.entries
+
+def showRes : Res → String
+  | .interruptErr .ctxErr => "ctx"
+  | .interruptErr .other => "other"
+  | .waitStatus .own => "own"
+  | .waitStatus .bySig => "sig"
+  | .waitStatus .byKill => "kill"
+
+def parseRes (s : String) : Option Res :=
+  if s == "ctx" then some (.interruptErr .ctxErr)
+  else if s == "other" then some (.interruptErr .other)
+  else if s == "own" then some (.waitStatus .own)
+  else if s == "sig" then some (.waitStatus .bySig)
+  else if s == "kill" then some (.waitStatus .byKill)
+  else none
+
+def b01 (b : Bool) : String := if b then "1" else "0"
+
+def showCoarse (c : Coarse) : String :=
+  b01 c.ctxDone ++ b01 c.delivered ++ b01 c.killed ++ ":" ++ showRes c.res
+
+def replayCleanup (s : RC) (k : Nat) : List (Nat × String × Int) → String
+  | [] =>
+    "ok root=" ++ b01 s.root ++ " attempts=" ++ toString s.rootAttempts ++ " failed=" ++ toString s.rootFailed ++
+    " cancels=" ++ toString s.cancels ++ " complete=" ++ b01 s.complete
+  | (i, kind, v) :: rest =>
+    let want : Option PC := if kind == "A" then some .rmAll else if kind == "D" then some .dec
+      else if kind == "R" then some .rmRoot else if kind == "C" then some .cancel else none
+    if s.pcs[i]? != want || want == none then "mismatch@" ++ toString k ++ ":finisher-" ++ toString i ++ "-is-not-at-" ++ kind
+    else match s.step i with
+      | none => "disabled@" ++ toString k
+      | some s' =>
+        if kind == "D" && s'.count != v then "mismatch@" ++ toString k ++ ":count-" ++ toString s'.count
+        else if kind == "R" && (s'.rootFailed == s.rootFailed) != (v == 1) then "mismatch@" ++ toString k ++ ":remove-result"
+        else replayCleanup s' (k + 1) rest
+
+def stepLine (line : String) : String :=
+  match line.splitOn " " with
+  | ["grace", t] =>
+    match parseInt t with
+    | some t =>
+      let p := plan t
+      s!"g={p.grace} i={p.interruptAt} k={p.killAt}"
+    | none => "bad-op"
+  | ["env", host, root, name, setup] =>
+    match parseEnv host, unhexS root, unhexS name, parseEnv setup with
+    | some host, some root, some name, some setup => showEnv (initialEnv host (workdirOf root name) setup)
+    | _, _, _, _ => "bad-op"
+  | ["refcount", n, retain, sched] =>
+    match parseNat n, parseBool retain, (splitList sched ",").mapM parseNat with
+    | some n, some retain, some sched =>
+      -- replay step by step to report where a schedule names a finished finisher
+      let rec go (s : RC) (k : Nat) : List Nat → String
+        | [] =>
+          "ok root=" ++ b01 s.root ++ " attempts=" ++ toString s.rootAttempts ++ " failed=" ++ toString s.rootFailed ++
+          " cancels=" ++ toString s.cancels ++ " count=" ++ toString s.count ++
+          " wd=" ++ (if s.wd.isEmpty then "-" else String.join (s.wd.map b01)) ++ " complete=" ++ b01 s.complete
+        | i :: rest => match s.step i with
+          | none => "disabled@" ++ toString k
+          | some s' => go s' (k + 1) rest
+      go (RC.init n retain) 0 sched
+    | _, _, _ => "bad-op"
+  | ["cleanuptrace", n, retain, evs] =>
+    -- replay of the logged operations of the real cleanup closures: `i:K:v`, K ∈ A (removeAll done),
+    -- D (AddInt32, v = result), R (os.Remove(root), v = 1 iff it succeeded), C (cancel)
+    let parseEv (e : String) : Option (Nat × String × Int) :=
+      match e.splitOn ":" with
+      | [i, k, v] => do
+        let i ← parseNat i
+        let v ← parseInt v
+        pure (i, k, v)
+      | _ => none
+    match parseNat n, parseBool retain, (splitList evs ",").mapM parseEv with
+    | some n, some retain, some evs =>
+      replayCleanup (RC.init n retain) 0 evs
+    | _, _, _ => "bad-op"
+  | ["waitorstop", kd, dl, me, oi, cd, dv, kl, res] =>
+    let dl? : Option (Option Nat) := if dl == "none" then some none else (parseNat dl).map some
+    match parseInt kd, dl?, parseBool me, parseBool oi, parseBool cd, parseBool dv, parseBool kl, parseRes res with
+    | some kd, some dl, some me, some oi, some cd, some dv, some kl, some res =>
+      let c : Scn := ⟨kd, dl, me, oi⟩
+      let (outs, stuck) := explore c 16 St.init
+      let obs : Coarse := ⟨cd, dv, kl, res⟩
+      if outs.contains obs then "member stuck=" ++ toString stuck
+      else "notmember stuck=" ++ toString stuck ++ " set=" ++ ",".intercalate (outs.map showCoarse)
+    | _, _, _, _, _, _, _, _ => "bad-op"
+  | ["execout", neg, err, ce] =>
+    match parseBool neg, parseBool err, parseBool ce with
+    | some neg, some err, some ce =>
+      match cmdExecOutcome neg err ce with
+      | .ok => "ok"
+      | .fatal m => "fatal:" ++ hexS m
+    | _, _, _ => "bad-op"
+  | ["script", flags, root, name, host, setup, sdef, keys, files, ops] =>
+    match flags.toList.map (fun c => c == '1'), unhexS root, unhexS name, parseEnv host, parseEnv setup,
+          (splitList sdef ",").mapM parseNat, (splitList keys ",").mapM unhexS,
+          (splitList files ",").mapM parseEntry, (splitList ops ",").mapM parseOp with
+    | [coe, uniq, verbose], some root, some name, some host, some setup, some sdef, some keys, some files, some ops =>
+      let cfg : Cfg := ⟨coe, uniq, verbose, host, root, name, setup, sdef, keys⟩
+      showOutcome (runScript cfg files ops)
+    | _, _, _, _, _, _, _, _, _ => "bad-op"
+  | _ => "bad-op"
+
+def main : IO Unit := run stepLine
